@@ -14,7 +14,8 @@ Model of `hickory_resolver::cache::{ResponseCache, Entry, TtlConfig, TtlBounds}`
 * `moka::sync::Cache` is an association list (`put` replaces, `erase` = `invalidate`,
   `[]` = `invalidate_all`).  moka's own real-time expiry (derived from the same `valid_until`)
   and capacity eviction are not modelled.
-* Rust panics: `Ord::clamp` asserts `min <= max`; `Instant + Duration` panics on overflow.
+* Rust panics: `Ord::clamp` asserts `min <= max`; `Instant + Duration` panics on overflow (only
+  reachable through the fall-back `now + u32::MAX s` of `insert`).
 -/
 import HickoryVerif.Basic
 
@@ -65,8 +66,8 @@ def TtlConfig.negBounds (cfg : TtlConfig) (ty : Nat) : Nat × Nat :=
   let b := cfg.boundsFor ty
   (b.negMin.getD 0, b.negMax.getD (MAX_TTL * NS))
 
-/-- `u32::try_from(d.as_secs()).unwrap_or(MAX_TTL)` -/
-def secsU32 (d : Nat) : Nat := if d / NS ≤ U32MAX then d / NS else MAX_TTL
+/-- `u32::try_from(d.as_secs()).unwrap_or(u32::MAX)` -/
+def secsU32 (d : Nat) : Nat := if d / NS ≤ U32MAX then d / NS else U32MAX
 
 /-- `TtlConfig::positive_ttl_bounds_secs` -/
 def TtlConfig.posBoundsSecs (cfg : TtlConfig) (ty : Nat) : Nat × Nat :=
@@ -171,11 +172,15 @@ def clampPositive (cfg : TtlConfig) (qt : Nat) (m : Msg) : Outcome (Nat × Msg) 
   let minTtl := minOpt ((matching qt m'.all).map fun r => r.ttl * NS)
   (clamp (minTtl.getD p.1) p.1 p.2).bind fun life => .ok (life, m')
 
-/-- `now + ttl` on `Instant` -/
+/-- `now.checked_add(ttl).unwrap_or_else(|| now + Duration::from_secs(u64::from(u32::MAX)))` :
+an unrepresentable expiry instant falls back to `now + u32::MAX s`; that `+` on `Instant` can
+itself only overflow (panic) for a `now` within 2^32 s of the end of `Instant`'s range -/
 def instantAdd (now d : Nat) : Outcome Nat :=
-  if now + d < INSTANT_LIMIT then .ok (now + d) else .panic "instant"
+  if now + d < INSTANT_LIMIT then .ok (now + d)
+  else if now + U32MAX * NS < INSTANT_LIMIT then .ok (now + U32MAX * NS)
+  else .panic "instant"
 
-/-- the tail of `insert`: `valid_until = now + ttl; self.cache.insert(query, Entry{..})` -/
+/-- the tail of `insert`: `valid_until = …; self.cache.insert(query, Entry{..})` -/
 def store (s : State) (q : Query) (r : Res) (now ttl : Nat) : Outcome State :=
   (instantAdd now ttl).bind fun vu => .ok (s.put q { result := r, t0 := now, validUntil := vu })
 
@@ -300,42 +305,17 @@ def fromResponse (r : Resp) : RespClass :=
   else if (r.rcode == 3 || r.rcode == 0) && !r.containsAnswer && !r.truncated then .noRecords r.negativeTtl
   else .ok
 
-/-! ### decidable classes of configurations (known-finding classes) -/
+/-! ### decidable classes of configurations -/
 
 /-- `min ≤ max` for both `Duration` pairs of one `TtlBounds` (with the defaults filled in). -/
 def Bounds.durOK (b : Bounds) : Bool :=
   decide (b.posMin.getD 0 ≤ b.posMax.getD (MAX_TTL * NS)) &&
   decide (b.negMin.getD 0 ≤ b.negMax.getD (MAX_TTL * NS))
 
-/-- the `(u32, u32)` pair used for the per-record clamp is ordered -/
-def Bounds.secsOK (b : Bounds) : Bool :=
-  decide (secsU32 (b.posMin.getD 0) ≤ secsU32 (b.posMax.getD (MAX_TTL * NS)))
-
 def TtlConfig.durOK (cfg : TtlConfig) : Bool :=
   cfg.default.durOK && cfg.byType.all fun p => p.2.durOK
 
-def TtlConfig.secsOK (cfg : TtlConfig) : Bool :=
-  cfg.default.secsOK && cfg.byType.all fun p => p.2.secsOK
-
 /-- class `C15.bounds-min-gt-max`: some configured bounds have `min > max` -/
 def TtlConfig.minGtMax (cfg : TtlConfig) : Bool := !cfg.durOK
-
-/-- class `C15.bounds-secs-inverted`: every `Duration` pair is ordered, yet the derived whole-second
-`u32` pair of some bounds is not (`max ≥ 2^32 s` falls back to `MAX_TTL` while `min > MAX_TTL`). -/
-def TtlConfig.secsInverted (cfg : TtlConfig) : Bool := cfg.durOK && !cfg.secsOK
-
-/-- some configured bound of these `TtlBounds` is `2^32 s` or more -/
-def Bounds.overU32 (b : Bounds) : Bool :=
-  [b.posMin, b.posMax, b.negMin, b.negMax].any fun x =>
-    match x with
-    | some v => decide (4294967296 * NS ≤ v)
-    | none => false
-
-/-- class `C15.bounds-over-u32` (known finding): some configured bound is `≥ 2^32 s`.  Such
-durations are documented as harmless, but `positive_ttl_bounds_secs` replaces them by `MAX_TTL`
-(one day) — which can invert the pair (panic in `u32::clamp`) or cut record TTLs that lie inside
-the configured range — and a lifetime that large can overflow `Instant`. -/
-def TtlConfig.overU32 (cfg : TtlConfig) : Bool :=
-  cfg.default.overU32 || cfg.byType.any fun p => p.2.overU32
 
 end HickoryVerif.Cache
